@@ -14,6 +14,13 @@ Theorem dispatch_selects_supported :
 Proof. exact dispatch_selects_supported_all. Qed.
 Print Assumptions dispatch_selects_supported.
 
+(** ... and is one of the kernels for which this file carries a kernel_eq_scalar theorem (or a scalar definition):
+    with the kernel theorems below, whatever the dispatcher selects equals the scalar definition. *)
+Theorem dispatch_selects_proved_kernel :
+  forall (c : caps) (s : slot), exists k, select c s = Some k /\ In k proved_kernels.
+Proof. exact dispatch_selects_proved_all. Qed.
+Print Assumptions dispatch_selects_proved_kernel.
+
 (** The same statement is false for the table of the pinned tree (AVX-512 block keyed on avx512f alone):
     finding F28, repaired in /repo. *)
 Theorem dispatch_pinned_refuted :
